@@ -212,10 +212,15 @@ func illTyped(in RejCase) bool {
 			return bk != spec.KNumber
 		case spec.KMap:
 			return bk != spec.KString
+		case spec.KSet:
+			// The method comments say sets are not indexable (panic) while
+			// docs/types.md says Index / HasIndex "may be" used with sets:
+			// contradictory documentation, nothing is asserted.
+			return false
 		}
-		return true // sets, objects, primitives are not indexable
+		return true // objects and primitives are not indexable
 	case "hasindex":
-		return ak != spec.KList && ak != spec.KTuple && ak != spec.KMap
+		return ak != spec.KList && ak != spec.KTuple && ak != spec.KMap && ak != spec.KSet
 	case "getattr":
 		if ak != spec.KObject {
 			return true
@@ -302,8 +307,8 @@ func init() {
 	})
 	facet.Register(facet.F[RejCase]{
 		Prop: "C02", Name: "reject/wrong-type",
-		Rule:  "one of 19 operations applied to known, non-null, unmarked operands at least one of which has a type the documentation does not define the operation for (non-number for arithmetic/ordering, non-bool for logic, wrong key type or non-indexable receiver for Index, non-indexable receiver for HasIndex, non-object or missing attribute for GetAttr, primitive for Length, non-set for HasElement); the call must be rejected (no value comes back); every ill-typed case counts",
+		Rule:  "one of 19 operations applied to known, non-null, unmarked operands at least one of which has a type the documentation does not define the operation for (non-number for arithmetic/ordering, non-bool for logic, wrong key type or object/primitive receiver for Index, object/primitive receiver for HasIndex (sets: documentation contradictory, unasserted), non-object or missing attribute for GetAttr, primitive for Length, non-set for HasElement); the call must be rejected (no value comes back); every ill-typed case counts",
 		Quick: 60000, Thorough: 250000,
-		Gen:   genRejCase, Check: checkRej,
+		Gen: genRejCase, Check: checkRej,
 	})
 }
